@@ -21,7 +21,7 @@ theorem connOf_closed_nodata (rd : Rd) (s : Bytes) (e : EndK)
 
 /-- a header whose parse does not depend on what follows it, within the header limit -/
 theorem connRun_prefix (env : Env) (enc pay : Bytes) (limit : Nat) (e : EndK) (R : Rd)
-    (hL : enc.length ≤ effLimit limit) (hR : ∀ rest, readHeader env (enc ++ rest) = R) :
+    (hL : enc.length ≤ effLimit limit) (hR : ∀ rest a, readHeader env (enc ++ rest) a = R) :
     connRun env (enc ++ pay) limit e = connOf R (enc ++ pay) e := by
   unfold connRun
   rw [take_prefix_ge enc pay _ hL, hR]
@@ -50,10 +50,10 @@ theorem addr_parts (src dst tail : Bytes) (p1 p2 p3 p4 : UInt8) (k : Nat) (hs : 
   · have : 2 * src.length + 3 - src.length - dst.length = 3 := by omega
     simp [this]
 
-theorem readHeader_v2_tcp4 (env : Env) (src dst : Bytes) (sp dp : Nat) (tlv rest : Bytes)
+theorem readHeader_v2_tcp4 {a : Bool} (env : Env) (src dst : Bytes) (sp dp : Nat) (tlv rest : Bytes)
     (hs : src.length = 4) (hd : dst.length = 4) (hsp : sp < 65536) (hdp : dp < 65536)
     (hlen : 12 + tlv.length ≤ bufSize) :
-    readHeader env (encodeV2 0x21 0x11 (addrBlock src dst sp dp ++ tlv) ++ rest)
+    readHeader env (encodeV2 0x21 0x11 (addrBlock src dst sp dp ++ tlv) ++ rest) a
       = .hdr 0x11 (some (to16 src)) (some (to16 dst)) sp dp (16 + (12 + tlv.length)) := by
   have hbl : (addrBlock src dst sp dp ++ tlv).length = 12 + tlv.length := by
     simp [addrBlock, hs, hd]; omega
@@ -73,10 +73,10 @@ theorem readHeader_v2_tcp4 (env : Env) (src dst : Bytes) (sp dp : Nat) (tlv rest
   repeat' split
   all_goals (first | rfl | omega)
 
-theorem readHeader_v2_tcp6 (env : Env) (src dst : Bytes) (sp dp : Nat) (tlv rest : Bytes)
+theorem readHeader_v2_tcp6 {a : Bool} (env : Env) (src dst : Bytes) (sp dp : Nat) (tlv rest : Bytes)
     (hs : src.length = 16) (hd : dst.length = 16) (hsp : sp < 65536) (hdp : dp < 65536)
     (hlen : 36 + tlv.length ≤ bufSize) :
-    readHeader env (encodeV2 0x21 0x21 (addrBlock src dst sp dp ++ tlv) ++ rest)
+    readHeader env (encodeV2 0x21 0x21 (addrBlock src dst sp dp ++ tlv) ++ rest) a
       = .hdr 0x21 (some src) (some dst) sp dp (16 + (36 + tlv.length)) := by
   have hbl : (addrBlock src dst sp dp ++ tlv).length = 36 + tlv.length := by
     simp [addrBlock, hs, hd]; omega
@@ -96,9 +96,9 @@ theorem readHeader_v2_tcp6 (env : Env) (src dst : Bytes) (sp dp : Nat) (tlv rest
   repeat' split
   all_goals (first | rfl | omega)
 
-theorem readHeader_v2_local (env : Env) (fam : UInt8) (block rest : Bytes)
+theorem readHeader_v2_local {a : Bool} (env : Env) (fam : UInt8) (block rest : Bytes)
     (hf : fam = 0x00 ∨ supportedFam fam = true) (hlen : block.length ≤ bufSize) :
-    readHeader env (encodeV2 0x20 fam block ++ rest) = .sock (16 + block.length) := by
+    readHeader env (encodeV2 0x20 fam block ++ rest) a = .sock (16 + block.length) := by
   have hb16 := be16_hi_lo block.length (by unfold bufSize at hlen; omega)
   simp only [readHeader, encodeV2, sigV2, sigV1, parseV2]
   simp
@@ -112,9 +112,9 @@ theorem readHeader_v2_local (env : Env) (fam : UInt8) (block rest : Bytes)
   all_goals (first | rfl | omega)
 
 /-- a block longer than the bufio buffer is rejected whatever the configured limit (known finding) -/
-theorem readHeader_v2_oversize (env : Env) (vc fam : UInt8) (block rest : Bytes)
+theorem readHeader_v2_oversize {a : Bool} (env : Env) (vc fam : UInt8) (block rest : Bytes)
     (hlen : bufSize < block.length) (h16 : block.length < 65536) :
-    readHeader env (encodeV2 vc fam block ++ rest) = .err := by
+    readHeader env (encodeV2 vc fam block ++ rest) a = .err := by
   have hb16 := be16_hi_lo block.length h16
   simp only [readHeader, encodeV2, sigV2, sigV1, parseV2]
   simp
@@ -221,7 +221,7 @@ theorem tok_TCP6 : Tok tokTCP6 := by
 theorem tok_UNKNOWN : Tok tokUNKNOWN := by
   intro b h; simp [tokUNKNOWN] at h; rcases h with h | h | h | h | h | h | h <;> subst h <;> decide
 
-theorem readHeader_v1 (env : Env) (t : Bytes) : readHeader env (sigV1 ++ 0x20 :: t) = parseV1 env (sigV1 ++ 0x20 :: t) := by
+theorem readHeader_v1 {a : Bool} (env : Env) (t : Bytes) : readHeader env (sigV1 ++ 0x20 :: t) a = parseV1 env (sigV1 ++ 0x20 :: t) := by
   simp [readHeader, sigV1]
   omega
 
@@ -260,21 +260,21 @@ theorem splitSp_v1Body (proto a b p q : Bytes) (hpr : Tok proto) (ha : Tok a) (h
   rw [splitSp_tok _ _ tok_sigV1.sp, splitSp_tok _ _ hpr.sp, splitSp_tok _ _ ha.sp, splitSp_tok _ _ hb.sp,
     splitSp_tok _ _ hp.sp, splitSp_last _ hq.sp]
 
-theorem readHeader_v1_tcp (env : Env) (proto a b p q rest : Bytes) (fam : UInt8) (ia ib : Option Bytes) (sp dp : Nat)
+theorem readHeader_v1_tcp {ae : Bool} (env : Env) (proto a b p q rest : Bytes) (fam : UInt8) (ia ib : Option Bytes) (sp dp : Nat)
     (hproto : (proto = tokTCP4 ∧ fam = 0x11) ∨ (proto = tokTCP6 ∧ fam = 0x21))
     (ha : Tok a) (hb : Tok b) (hp : Tok p) (hq : Tok q)
     (hia : parseV1IP env fam a = some ia) (hib : parseV1IP env fam b = some ib)
     (hsp : goPort p = some sp) (hdp : goPort q = some dp) :
-    readHeader env (encodeV1 proto a b p q ++ rest)
+    readHeader env (encodeV1 proto a b p q ++ rest) ae
       = .hdr fam ia ib sp dp (encodeV1 proto a b p q).length := by
   have hpr : Tok proto := by
     rcases hproto with ⟨h, _⟩ | ⟨h, _⟩
     · subst h; exact tok_TCP4
     · subst h; exact tok_TCP6
   rw [encodeV1_length, encodeV1_eq]
-  have hrd : readHeader env (v1Body proto a b p q ++ 0x0D :: 0x0A :: rest)
+  have hrd : readHeader env (v1Body proto a b p q ++ 0x0D :: 0x0A :: rest) ae
       = parseV1 env (v1Body proto a b p q ++ 0x0D :: 0x0A :: rest) := by
-    have := readHeader_v1 env (proto ++ SP :: (a ++ SP :: (b ++ SP :: (p ++ SP :: q))) ++ 0x0D :: 0x0A :: rest)
+    have := readHeader_v1 (a := ae) env (proto ++ SP :: (a ++ SP :: (b ++ SP :: (p ++ SP :: q))) ++ 0x0D :: 0x0A :: rest)
     simpa [v1Body, SP, List.append_assoc] using this
   rw [hrd, parseV1_line _ _ _ (v1Body_lf proto a b p q hpr ha hb hp hq), splitSp_v1Body proto a b p q hpr ha hb hp hq]
   rcases hproto with ⟨h1, h2⟩ | ⟨h1, h2⟩
@@ -287,9 +287,9 @@ theorem readHeader_v1_tcp (env : Env) (proto a b p q rest : Bytes) (fam : UInt8)
     simp [parseToks, hne, hne2, hia, hib, hsp, hdp]
 
 /-- `PROXY UNKNOWN\r\n` and `PROXY UNKNOWN <anything without LF>\r\n` -/
-theorem readHeader_v1_unknown (env : Env) (junk rest : Bytes)
+theorem readHeader_v1_unknown {a : Bool} (env : Env) (junk rest : Bytes)
     (hj : junk = [] ∨ ∃ j, junk = 0x20 :: j) (hlf : ∀ b ∈ junk, b ≠ 0x0A) :
-    readHeader env (encodeV1Unknown junk ++ rest) = .sock (encodeV1Unknown junk).length := by
+    readHeader env (encodeV1Unknown junk ++ rest) a = .sock (encodeV1Unknown junk).length := by
   have hlen : (encodeV1Unknown junk).length = (sigV1 ++ 0x20 :: (tokUNKNOWN ++ junk)).length + 2 := by
     simp [encodeV1Unknown]; omega
   have heq : encodeV1Unknown junk ++ rest = (sigV1 ++ 0x20 :: (tokUNKNOWN ++ junk)) ++ 0x0D :: 0x0A :: rest := by
@@ -302,9 +302,9 @@ theorem readHeader_v1_unknown (env : Env) (junk rest : Bytes)
     · subst h; decide
     · exact tok_UNKNOWN.lf b h
     · exact hlf b h
-  have hrd : readHeader env ((sigV1 ++ 0x20 :: (tokUNKNOWN ++ junk)) ++ 0x0D :: 0x0A :: rest)
+  have hrd : readHeader env ((sigV1 ++ 0x20 :: (tokUNKNOWN ++ junk)) ++ 0x0D :: 0x0A :: rest) a
       = parseV1 env ((sigV1 ++ 0x20 :: (tokUNKNOWN ++ junk)) ++ 0x0D :: 0x0A :: rest) := by
-    have := readHeader_v1 env ((tokUNKNOWN ++ junk) ++ 0x0D :: 0x0A :: rest)
+    have := readHeader_v1 (a := a) env ((tokUNKNOWN ++ junk) ++ 0x0D :: 0x0A :: rest)
     simpa [List.append_assoc] using this
   rw [hlen, heq, hrd, parseV1_line _ _ _ hY, splitSp_tok _ _ tok_sigV1.sp]
   rcases hj with h | ⟨j, h⟩
@@ -318,10 +318,10 @@ theorem readHeader_v1_unknown (env : Env) (junk rest : Bytes)
 
 /-! ### no signature -/
 
-theorem readHeader_nosig (env : Env) (vis : Bytes) (hne : vis ≠ [])
+theorem readHeader_nosig {a : Bool} (env : Env) (vis : Bytes) (hne : vis ≠ [])
     (h1 : vis.take 5 ≠ sigV1) (h2 : vis.take 12 ≠ sigV2)
     (hshort : ¬ ((vis.take 1 = [0x50] ∨ vis.take 1 = [0x0D]) ∧ vis.length < 12)) :
-    readHeader env vis = .noProxy := by
+    readHeader env vis a = .noProxy := by
   match vis, hne with
   | b :: t, _ =>
     unfold readHeader
@@ -352,24 +352,31 @@ theorem hi8_be16 (hi lo : UInt8) : hi8 (be16 hi lo) = hi ∧ lo8 (be16 hi lo) = 
     rw [this]; exact UInt8.ofNat_toNat
 
 /-- whatever `Read` accepts behind a v2 signature is the spec encoding of a well-formed header followed by
-    the rest of the stream -/
-theorem readHeader_v2_sound (env : Env) (t : Bytes) (r : Rd) (h : readHeader env (sigV2 ++ t) = r)
+    the rest of the stream — or the legacy 13-byte LOCAL form with NOTHING after it (reader at EOF) -/
+theorem readHeader_v2_sound (env : Env) (t : Bytes) (a : Bool) (r : Rd) (h : readHeader env (sigV2 ++ t) a = r)
     (hr : r ≠ .err) :
+    (t = [0x20] ∧ a = true ∧ r = .sock 13) ∨
     ∃ vc fam block rest n,
       sigV2 ++ t = encodeV2 vc fam block ++ rest ∧ block.length < 65536 ∧ n = 16 + block.length ∧
       block.length ≤ bufSize ∧
       ((vc = 0x20 ∧ (fam = 0x00 ∨ supportedFam fam = true) ∧ r = .sock n) ∨
        (vc = 0x21 ∧ supportedFam fam = true ∧ validLen fam block.length = true ∧
          ∃ s d sp dp, r = .hdr fam s d sp dp n)) := by
-  have hnp : readHeader env (sigV2 ++ t) = parseV2 (sigV2 ++ t) := by
+  have hnp : readHeader env (sigV2 ++ t) a = parseV2 (sigV2 ++ t) a := by
     simp [readHeader, sigV2, sigV1]
     rw [if_neg (by omega), if_neg (by omega)]
   rw [hnp] at h
   match t with
   | [] => simp [parseV2, sigV2] at h; exact absurd h.symm hr
   | [b13] =>
+    left
     simp only [parseV2, sigV2] at h; simp at h
-    repeat' (first | exact absurd h.symm hr | split at h)
+    by_cases c1 : ¬b13 = 32 ∧ ¬b13 = 33
+    · rw [if_pos c1] at h; exact absurd h.symm hr
+    rw [if_neg c1] at h
+    by_cases c2 : b13 = 32 ∧ a = true
+    · rw [if_pos c2] at h; exact ⟨by rw [c2.1], c2.2, h.symm⟩
+    · rw [if_neg c2] at h; exact absurd h.symm hr
   | [b13, b14] =>
     simp only [parseV2, sigV2] at h; simp at h
     repeat' (first | exact absurd h.symm hr | split at h)
@@ -377,6 +384,7 @@ theorem readHeader_v2_sound (env : Env) (t : Bytes) (r : Rd) (h : readHeader env
     simp only [parseV2, sigV2] at h; simp at h
     repeat' (first | exact absurd h.symm hr | split at h)
   | vc :: fam :: hi :: lo :: r3 =>
+    right
     simp only [parseV2, sigV2] at h
     simp at h
     by_cases c1 : ¬vc = 32 ∧ ¬vc = 33
